@@ -114,7 +114,8 @@ impl ShardContext {
         }
 
         #[cfg(sneldb_verif)]
-        crate::verif::step("startup.loaded", &format!("\"shard\":{id},\"live\":{:?},\"next_l0\":{},\"mem\":{}", &*ctx.segment_ids.read().unwrap(), ctx.next_l0_id, ctx.memtable.len()));
+        crate::verif::step("startup.loaded", &format!("\"shard\":{id},\"live\":{:?},\"next_l0\":{},\"mem\":{},\"eids\":[{}]", &*ctx.segment_ids.read().unwrap(), ctx.next_l0_id, ctx.memtable.len(),
+            ctx.memtable.iter().map(|e| format!("\"{}\"", e.event_id().raw())).collect::<Vec<_>>().join(",")));
         ctx
     }
 
